@@ -388,7 +388,11 @@ class TestCaseExecutor(AbstractTestCaseExecutor):
                 thread.join(
                     timeout=min(
                         self._maximum_test_execution_timeout,
-                        self._test_execution_time_per_statement * test_case.size(),
+                        # An empty test case still needs a non-zero budget: with a
+                        # timeout of 0 the join returns immediately and whether the
+                        # (trivial) execution counts as timed out depends on thread
+                        # scheduling.
+                        self._test_execution_time_per_statement * max(test_case.size(), 1),
                     )
                 )
                 timed_out = thread.is_alive()
